@@ -1059,7 +1059,21 @@ reg(Prop("C17", "Static evaluation is colour-symmetric and depends only on the p
                          "Term activation (which evaluation term contributed for which colour to which phase accumulator, and whether the "
                          "sigmoid of each king-attack score is non-zero) is MEASURED on every run with the extracted model "
                          "(Model/EvalAct.v) and reported as c17:term:* in input_distribution; terms active in < 1 % of the cases are "
-                         "listed in the notes")],
+                         "listed in the notes"),
+          StreamCfg("c17s", 1500, 30000, judge="judge_c17s",
+                    rule="SESSIONS on ONE long-lived board object (restored once, then only MakeMove / UndoMove / null moves / "
+                         "ResetFifty), evaluated at chosen points only: shuffles A B A^-1 B^-1 x 1..10 that return to the same "
+                         "placement and hash with a later clock and nobody evaluating in between, ResetFifty behind the "
+                         "evaluation's back, make-evaluate-undo-evaluate, null moves, the same position twice; every answer is "
+                         "compared with the model after the same operations and (judge) with eval.Eval of a FRESH board of the "
+                         "same position; start positions G1/G2/G4 plus material-rich placements; non-trivial = contains a "
+                         "shuffle or a clock reset; distinct by start FEN + operations"),
+          StreamCfg("c17c", 30, 300, judge="judge_c17c",
+                    rule="CONCURRENT use: 8..16 goroutines, each with its own board objects (2..4 boards each), released "
+                         "together, 150..300 rounds of plain eval.Eval(b, &eval.Coefficients); every answer compared by the "
+                         "harness with the sequential answer of the same call (also compared with the model). This is an "
+                         "OBSERVATION of runtime behaviour on the normal build (no race detector): a data race inside eval.Eval "
+                         "shows as wrong values with high but not certain probability")],
          trusted=["hooks eval/export_verif.go (VerifSigm, VerifSideOfBoard, VerifInsufficientMat), board/export_verif.go (snapshot/restore)",
                   "sliding and leaper attacks are the geometric definitions of Spec/Geometry.v (tied to the engine's magic tables by C12 and, end to end, by this stream)"],
          assumptions=["board words < 2^64, exactly one king per side, knights and bishops belong to a colour (fragment of the representation invariant; part of `valid`)"],
